@@ -1180,6 +1180,150 @@ def fam_extremal(rng, tier):
     return out
 
 
+
+def fam_all_fields(rng, proto, chunk=12):
+    """EVERY field number the library's type table knows (plus a few it does not), each with a width its type accepts, packed
+    `chunk` per template, two records each — so that no arm of the generated type tables stays unexercised by the real crate"""
+    out = []
+    types = V9_TYPES if proto == 9 else IP_TYPES
+    nums = sorted(types) + [max(types) + 1, max(types) + 50]
+    for base in range(0, len(nums), chunk):
+        part = nums[base: base + chunk]
+        if proto == 9:
+            fields = [{"typ": n, "len": rng.choice(WIDTHS[types.get(n, "unknown")] if types.get(n, "unknown") not in ("str", "vec") else [1, 5])} for n in part]
+            t = {"id": 400, "fieldCount": len(fields), "fields": fields}
+            tm = {"v9": {"m": {"count": 1, "sysUpTime": 1, "unixSecs": 1, "seq": 1, "sourceId": 1, "sets": [{"templates": {"ts": [t], "pad": ""}}]}}}
+            recs = [v9_record(rng, t) for _ in range(2)]
+            dm = {"v9": {"m": {"count": 1, "sysUpTime": 2, "unixSecs": 2, "seq": 2, "sourceId": 1, "sets": [{"data": {"id": 400, "recs": recs, "pad": ""}}]}}}
+        else:
+            fields = [{"typ": n, "len": rng.choice(WIDTHS[types.get(n, "unknown")] if types.get(n, "unknown") not in ("str", "vec") else [1, 5]), "ent": None} for n in part]
+            t = {"id": 400, "fields": fields}
+            tm = {"ipfix": {"m": {"exportTime": 1, "seq": 1, "odid": 1, "sets": [{"templates": {"ts": [t], "pad": ""}}]}}}
+            recs = [ip_record(rng, fields) for _ in range(2)]
+            dm = {"ipfix": {"m": {"exportTime": 2, "seq": 2, "odid": 1, "sets": [{"data": {"id": 400, "recs": recs, "pad": ""}}]}}}
+        o1, o2 = op_parse(0, msgs=[tm]), op_parse(0, msgs=[dm])
+        o1["nospec"] = True
+        o2["nospec"] = True
+        out.append(("all-fields-%d" % proto, [op_new(0), o1, o2]))
+    return out
+
+
+def fam_proto_values(rng, proto):
+    """a protocol-typed field (field 4) carrying every value 0..255, 32 records per data set (decode, name, re-export, JSON)"""
+    out = []
+    for lo in range(0, 256, 32):
+        vals = range(lo, lo + 32)
+        if proto == 9:
+            t = {"id": 401, "fieldCount": 2, "fields": [{"typ": 4, "len": 1}, {"typ": 1, "len": 4}]}
+            tm = {"v9": {"m": {"count": 1, "sysUpTime": 1, "unixSecs": 1, "seq": 1, "sourceId": 1, "sets": [{"templates": {"ts": [t], "pad": ""}}]}}}
+            sets = [{"data": {"id": 401, "recs": [["%02x" % v, hx(rbytes(rng, 4))]], "pad": ""}} for v in vals]
+            dm = {"v9": {"m": {"count": len(sets), "sysUpTime": 2, "unixSecs": 2, "seq": 2, "sourceId": 1, "sets": sets}}}
+        else:
+            fields = [{"typ": 4, "len": 1, "ent": None}, {"typ": 1, "len": 4, "ent": None}]
+            t = {"id": 401, "fields": fields}
+            tm = {"ipfix": {"m": {"exportTime": 1, "seq": 1, "odid": 1, "sets": [{"templates": {"ts": [t], "pad": ""}}]}}}
+            sets = [{"data": {"id": 401, "recs": [[{"content": "%02x" % v, "form": "fixed"}, {"content": hx(rbytes(rng, 4)), "form": "fixed"}]], "pad": ""}} for v in vals]
+            dm = {"ipfix": {"m": {"exportTime": 2, "seq": 2, "odid": 1, "sets": sets}}}
+        o1, o2 = op_parse(0, msgs=[tm]), op_parse(0, msgs=[dm])
+        o1["nospec"] = True
+        o2["nospec"] = True
+        out.append(("proto-values-%d" % proto, [op_new(0), o1, o2]))
+    return out
+
+# ------------------------------------------------------------------ structured (abstract-level) field sweep
+SWEEP_SMALL = list(range(0, 34))
+SWEEP_EDGE = [63, 64, 65, 127, 128, 254, 255, 256, 257, 1023, 1024, 4095, 4096, 32767, 32768, 65534, 65535, 65536, 2 ** 24 - 1, 2 ** 24,
+              2 ** 31 - 1, 2 ** 31, 2 ** 32 - 1, 2 ** 32, 2 ** 63, 2 ** 64 - 1]
+LIST_KEYS = ("recs", "sets", "ts", "fields", "scope", "opts")
+
+
+def _int_leaves(x, path, acc):
+    if isinstance(x, bool):
+        return
+    if isinstance(x, int):
+        acc.append(path)
+    elif isinstance(x, list):
+        for i, y in enumerate(x):
+            _int_leaves(y, path + (i,), acc)
+    elif isinstance(x, dict):
+        for k, y in x.items():
+            _int_leaves(y, path + (k,), acc)
+
+
+def _list_leaves(x, path, acc):
+    if isinstance(x, list):
+        for i, y in enumerate(x):
+            _list_leaves(y, path + (i,), acc)
+    elif isinstance(x, dict):
+        for k, y in x.items():
+            if k in LIST_KEYS and isinstance(y, list):
+                acc.append(path + (k,))
+            _list_leaves(y, path + (k,), acc)
+
+
+def _get(x, path):
+    for k in path:
+        x = x[k]
+    return x
+
+
+def _set(x, path, v):
+    for k in path[:-1]:
+        x = x[k]
+    x[path[-1]] = v
+
+
+def sweep_scenarios(rng, scens, per=1, cap=None):
+    """structure-preserving mutation BEFORE encoding: one integer leaf of one abstract message (an id, a count, a length, a
+    type number, a header value) is replaced by a value from the sweep pool (every small integer 0..33, powers of two and
+    their neighbours, the integer literals of the source and their neighbours), or one list (records, sets, template records,
+    fields) is resized to a small length.  The writer recomputes lengths, so the result is still framed correctly and reaches the
+    decoders — unlike byte mutations, which mostly die at the framing.  The mutated op is `nospec` (it may be non-conformant)."""
+    import copy
+    pool = SWEEP_SMALL + SWEEP_SMALL + SWEEP_EDGE + [v + d for v in LITERALS for d in (-1, 0, 1) if v + d >= 0]
+    out = []
+    std = {"op", "p", "msgs", "hexs", "hex", "want", "nospec"}
+    cands = []
+    for kind, ops in scens:
+        if any(o["op"].startswith("assert_") or o["op"] in ("flat", "fixed_roundtrip") for o in ops):
+            continue
+        if any(o["op"] == "parse" and (set(o) - std) for o in ops):
+            continue
+        idxs = [i for i, o in enumerate(ops) if o["op"] == "parse" and o.get("msgs")]
+        if idxs:
+            cands.append((kind, ops, idxs))
+    if cap is not None and len(cands) > cap:
+        cands = rng.sample(cands, cap)
+    for kind, ops, idxs in cands:
+        for _ in range(per):
+            new = copy.deepcopy(ops)
+            victim = new[rng.choice(idxs)]
+            if rng.random() < 0.75:
+                leaves = []
+                _int_leaves(victim["msgs"], (), leaves)
+                if not leaves:
+                    continue
+                path = rng.choice(leaves)
+                _set(victim["msgs"], path, rng.choice(pool))
+                tag = "+sweep"
+            else:
+                lists = []
+                _list_leaves(victim["msgs"], (), lists)
+                lists = [p for p in lists if _get(victim["msgs"], p)]
+                if not lists:
+                    continue
+                path = rng.choice(lists)
+                cur = _get(victim["msgs"], path)
+                k = rng.choice(SWEEP_SMALL + [40, 64, 100])
+                _set(victim["msgs"], path, [copy.deepcopy(cur[i % len(cur)]) for i in range(k)])
+                tag = "+resize"
+            for o in new:
+                if o["op"] == "parse":
+                    o["nospec"] = True
+            out.append((kind + tag, new))
+    return out
+
+
 def mutate_hex(rng, h):
     b = bytearray(bytes.fromhex(h))
     if not b:
